@@ -35,6 +35,7 @@ class FaultPolicy(object):
         # later request - see DESIGN.md section 7 items 1 and 13
         self.fifo_requests = fifo_requests
         self.partitions = []       # [(start, end)] in virtual time
+        self.busy = None           # {"p":, "len":} transient-busy-only mode
         self.active = True
 
     @classmethod
@@ -45,12 +46,20 @@ class FaultPolicy(object):
         faults at all."""
         rates = {}
         # 0 = fault free (benign first)
-        mode = tape.weighted([1, 2 * (fault_free_one_in - 1) - 1, 1]) \
+        mode = tape.weighted([1, 2 * (fault_free_one_in - 1) - 1, 1,
+                              1 if "transient_busy" in allowed else 0]) \
             if fault_free_one_in > 1 else 1
-        # mode 0: none; 1: light (0-15 %); 2: heavy (30-60 %)
-        if mode != 0:
+        # mode 0: none; 1: light (0-15 %); 2: heavy (30-60 %); 3: the only
+        # fault is chips that answer "busy" for a while (shorter than one
+        # time-out) when first addressed - everything must still succeed,
+        # because a busy command is retried once its time-out has elapsed
+        busy = None
+        if mode == 3:
+            busy = {"p": [0.2, 0.5, 1.0][tape.draw(3)],
+                    "len": [0.2, 0.5, 0.9][tape.draw(3)]}
+        if mode in (1, 2):
             for kind in allowed:
-                if kind == "partition":
+                if kind in ("partition", "transient_busy"):
                     continue
                 if tape.chance(0.55):
                     if mode == 1:
@@ -64,9 +73,10 @@ class FaultPolicy(object):
         jitter = tape.choice([0.0, 0.0005, 0.005])
         pol = cls(rates, timeout=timeout, jitter=jitter,
                   fifo_requests=fifo_requests)
+        pol.busy = busy
         # partitions: intervals of virtual time during which every datagram
         # in either direction is lost, then the link heals by itself
-        if mode != 0 and "partition" in allowed and tape.chance(0.3):
+        if mode in (1, 2) and "partition" in allowed and tape.chance(0.3):
             t0 = 0.0
             for _ in range(1 + tape.draw(2)):
                 t0 += timeout * (1 + tape.draw(40)) / 4.0
@@ -87,6 +97,8 @@ class FaultPolicy(object):
         if self.partitions:
             d["partitions"] = [(round(a, 3), round(b, 3))
                                for a, b in self.partitions]
+        if self.busy:
+            d["transient_busy"] = self.busy
         return d
 
     def partitioned(self, now):
